@@ -16,7 +16,8 @@ for d in sorted(glob.glob('/tmp/seed-out/C??-[0-9]')):
     c = conf.get(name)
     if not c:
         continue
-    ok = c.get('demo_unpatched_exit') == 0 and c.get('demo_patched_exit', 0) != 0 and '57 passed' in c.get('tests', '') and c.get('failed', '').count('FAILED') <= 1
+    t = c.get('tests', '')
+    ok = c.get('demo_unpatched_exit') == 0 and c.get('demo_patched_exit', 0) != 0 and (('58 passed' in t and 'failed' not in t) or ('57 passed' in t and c.get('failed', '').count('FAILED') == 1 and 'test_compute_combinations' in c.get('failed', '')))
     if not ok:
         print('NOT CONFIRMED', name, c)
         continue
